@@ -52,8 +52,8 @@ func (r *Run) brackets() []*bracket {
 		var b *bracket
 		for _, cs := range p.calls(fn) {
 			d, isDefer := cs.Instr.(*ssa.Defer)
-			if !isDefer {
-				continue
+			if !isDefer || cs.Fn != fn {
+				continue // defers of inlined helpers run at the helper's exit, not at fn's
 			}
 			if b == nil {
 				b = &bracket{fn: fn, name: p.fnName(fn)}
@@ -99,8 +99,23 @@ func (r *Run) brackets() []*bracket {
 // consultsFailed reports whether f, called with X bound to parameter index xi (or, for closures,
 // through a free variable resolving to X), reads X.failed and acts on a non-empty value by
 // panicking or by calling (*T).fail on another T.
-func (p *Program) consultsFailed(f *ssa.Function, isX func(v ssa.Value) bool) (bool, string) {
+func (p *Program) consultsFailed(f0 *ssa.Function, isX func(v ssa.Value) bool) (bool, string) {
 	var loads []ssa.Value
+	// f0 together with the helpers inlined into it
+	var blocks []*ssa.BasicBlock
+	var addFn func(f *ssa.Function, d int)
+	addFn = func(f *ssa.Function, d int) {
+		blocks = append(blocks, f.Blocks...)
+		for _, b := range f.Blocks {
+			for _, in := range b.Instrs {
+				if h := transparentCallee(in); h != nil && d < 4 {
+					addFn(h, d+1)
+				}
+			}
+		}
+	}
+	addFn(f0, 0)
+	f := struct{ Blocks []*ssa.BasicBlock }{blocks}
 	for _, b := range f.Blocks {
 		for _, in := range b.Instrs {
 			u, ok := in.(*ssa.UnOp)
@@ -296,7 +311,7 @@ func ruleC02R1(r *Run) {
 	if fn := r.MustFn("(*T).skip"); fn != nil {
 		stores := 0
 		for _, fa := range p.fieldAccesses("T") {
-			if fa.Fn == fn && fa.Kind == "write" {
+			if p.within(fa.Fn, fn) && fa.Kind == "write" {
 				stores++
 			}
 		}
